@@ -471,13 +471,17 @@ func (c *Call) Enter(args ...interface{}) {
 
 // Ret logs what the injector returned. hasCu/hasErr say whether the injector
 // declares those results; cuNil whether the returned cleanup was nil.
-func (c *Call) Ret(res interface{}, hasCu, cuNil, hasErr bool, err error) {
+// resPtr points to the driver's typed result variable, so that zero-ness is decided for the
+// declared result type (an interface result holding a typed nil pointer is NOT zero).
+func (c *Call) Ret(resPtr interface{}, hasCu, cuNil, hasErr bool, err error) {
+	rv := reflect.ValueOf(resPtr).Elem()
+	var res interface{}
+	if rv.CanInterface() {
+		res = rv.Interface()
+	}
 	keepAlive(res)
 	ev := map[string]interface{}{"ev": "inj_ret", "inj": c.Inj, "res": Desc(res), "has_cu": hasCu, "cu_nil": cuNil, "has_err": hasErr}
-	isZero := res == nil
-	if res != nil {
-		isZero = reflect.ValueOf(res).IsZero()
-	}
+	isZero := rv.IsZero()
 	ev["is_zero"] = isZero
 	if err != nil {
 		if e, ok := err.(*Err); ok {
